@@ -632,7 +632,7 @@ def post_of(lines):
     req = [l for l in lines if l.lstrip().startswith('requires')][0].strip()[len('requires'):].strip().rstrip(',')
     cl = []
     for l in '\n'.join(lines).split('\n'):
-        m = _re0.match(r'^\s+(.*),\s*//\s*@(\S+)\s*$', l)
+        m = _re0.match(r'^\s+(.*),\s*//\s*@(\S.*?)\s*$', l)
         if m and m.group(2) not in KNOWN_CLAUSES:
             cl.append('(' + m.group(1) + ')')
     return req, '\n        && '.join(cl)
